@@ -308,3 +308,7 @@ Proof. vm_compute. discriminate. Qed.
 Example vtk_roundtrip_example :
   let d := [(([1; 2], [0], [3], [4; 4]), 7); (([5; 6], [1], [3], [9; 9]), 8)] in arrays2dict (dict2arrays d) = d.
 Proof. vm_compute. reflexivity. Qed.
+
+(* ---------- Cluster YAML flags: every combination of the constructor flags survives the dictionary ---------- *)
+Theorem cluster_flags_roundtrip (t v : bool) : cluster_flags_of_keys (cluster_asdict_keys t v) = (t, v).
+Proof. destruct t, v; reflexivity. Qed.
